@@ -649,7 +649,12 @@ fn sim_scenario(line: &str) -> String {
             }
         }
         let hr = match sim.run(r.take(100, ANY_SAMPLE_STATE, ANY_VIEW_STATE, ANY_INSTANCE_STATE), BUDGET) {
-            Ok(Ok(samples)) if samples.len() == 1 => show(Ok(samples[0].sample_info.instance_handle)),
+            Ok(Ok(samples)) if samples.len() == 1 => {
+                if std::env::var("C11_DEBUG").is_ok() {
+                    eprintln!("{:?} valid={}", samples[0].sample_info.instance_state, samples[0].sample_info.valid_data);
+                }
+                show(Ok(samples[0].sample_info.instance_handle))
+            }
             Ok(Ok(samples)) if samples.is_empty() => "E40".to_string(),
             Ok(Ok(_)) => "E42".to_string(),
             Ok(Err(_)) => "E40".to_string(),
@@ -666,7 +671,7 @@ fn run_sim_child(line: &str) -> String {
         .arg("--sim")
         .stdin(std::process::Stdio::piped())
         .stdout(std::process::Stdio::piped())
-        .stderr(std::process::Stdio::null())
+        .stderr(if std::env::var("C11_DEBUG").is_ok() { std::process::Stdio::inherit() } else { std::process::Stdio::null() })
         .spawn()
         .unwrap();
     child.stdin.take().unwrap().write_all(format!("{}\n", line).as_bytes()).unwrap();
